@@ -407,6 +407,13 @@ def trace_validation(ctx):
                 meta['type'] = rnd.choice(['ann', 'reg'])
             kind = rnd.choice(['circle', 'ellipse', 'rectangle', 'cannulus', 'polygon', 'line', 'point', 'text'])
             kw = {'meta': meta}
+            # list-valued CRTF metadata: a frequency range, correlations, a label offset
+            if rnd.random() < 0.15:
+                meta['range'] = [1.0 * u.GHz, 2.5 * u.GHz]
+            if rnd.random() < 0.15:
+                meta['corr'] = ['I', 'Q']
+            if rnd.random() < 0.15:
+                kw['visual'] = {'labeloff': [1, 2]}
             if kind == 'circle':
                 regs.append(R.CircleSkyRegion(c, s(), **kw))
             elif kind == 'ellipse':
